@@ -1619,6 +1619,11 @@ class Gen:
                     continue
                 nth = int(a.opts.get('nth', '0'))
                 if (nth == 0 and cnt != 1) or nth > cnt:
+                    if a.opts.get('optional'):
+                        # ambiguous now (the change added a second closure with the same header): the annotation is not applied,
+                        # the fn is degraded like for an absent optional anchor
+                        self.degraded.setdefault(region, []).append(f'closure <<{a.arg}>> occurs {cnt} times')
+                        continue
                     raise SpecError(f'LOST-ANCHOR: {region}: closure header <<{a.arg}>> occurs {cnt} times')
                 # the anchor may carry a disambiguating prefix (`.ok_or_else(||`), which the replacement must repeat verbatim
                 mpre = re.match(r'^(.*?)((?:move\s+)?\|[^|]*\|)$', a.arg.strip(), flags=re.S)
@@ -2201,6 +2206,9 @@ class Gen:
                     self.degraded.setdefault(region, []).append(f'closure <<{a.arg}>> absent')
                     continue
                 if (nth == 0 and b.count(a.arg) != 1) or nth > b.count(a.arg):
+                    if a.opts.get('optional'):
+                        self.degraded.setdefault(region, []).append(f'closure <<{a.arg}>> occurs {b.count(a.arg)} times')
+                        continue
                     raise SpecError(f'LOST-ANCHOR: {region}: closure header <<{a.arg}>> occurs {b.count(a.arg)} times')
                 off = -1
                 for _ in range(max(nth, 1)):
